@@ -95,6 +95,11 @@ int main() {
       o->props["ptr_Obj"] = p;
     } else o->props["ptr_Obj"] = mxDuplicateArray(prhs[1]);
     plhs[0] = o; return 0; };
+  // the RTTI registry a generated gateway sets up (_<module>_RTTIRegister): create_object looks the derived class up in it
+  { mxArray *registry = mxCreateStructMatrix(1, 1, 0, NULL);
+    int fieldId = mxAddField(registry, typeid(Obj).name());
+    mxSetFieldByNumber(registry, 0, fieldId, mxCreateString("Obj"));
+    mexPutVariable("global", "gtsamwrap_rttiRegistry", registry); mxDestroyArray(registry); }
   std::map<int, std::shared_ptr<Obj>> owners; std::map<int, mxArray *> handles; int nexth = 1;
   std::string line;
   while (std::getline(std::cin, line)) {
